@@ -13,6 +13,7 @@ Line protocol of the C14 model (sums are exact integers: `M := Int`).
 
 <req>   comma separated prefix code:  N | B,<a>,<b> | M,f,miss | T,f,miss,size,segsize,mdc,ord,<sub>
         | H,f,interval,offset,mdc,hlo,hhi,elo,ehi,<sub> | R,f,n,c1,…,cn,<sub> | F,f,v,<sub>
+        | TH,f,addr,k,(d|a) | C,n,f1,base1,(d|a),…,fn,basen,(d|a),size,after,<sub>
         (`_` = absent optional; ord ∈ cd,ca,ka,kd)
 <parts> parts separated by `|` (`-` = a part without documents), documents by `;`,
         a document is `e` (no field) or `f=v,v,…` items separated by `/`
@@ -74,6 +75,32 @@ def parseReq : Nat → List String → Option (Req × List String)
       let cuts ← (rest.take n).mapM (fun s => s.toInt?)
       let (sub, r1) ← parseReq fuel (rest.drop n)
       pure (.range f cuts sub, r1)
+    | "TH" :: f :: addr :: k :: d :: rest => do
+      let f ← f.toNat?
+      let addr ← addr.toNat?
+      let k ← k.toNat?
+      let desc ← (if d == "d" then some true else if d == "a" then some false else Option.none)
+      pure (.topHits f addr k desc, rest)
+    | "C" :: n :: rest => do
+      let n ← n.toNat?
+      if rest.length < 3 * n + 2 then Option.none
+      let rec srcs : Nat → List String → Option (List CompSrc)
+        | 0, _ => some []
+        | k + 1, f :: b :: d :: more => do
+          let f ← f.toNat?
+          let b ← b.toNat?
+          let desc ← (if d == "d" then some true else if d == "a" then some false else Option.none)
+          let tl ← srcs k more
+          pure (⟨f, b, desc⟩ :: tl)
+        | _, _ => Option.none
+      let ss ← srcs n rest
+      match rest.drop (3 * n) with
+      | size :: after :: more => do
+        let size ← size.toNat?
+        let after ← optInt after
+        let (sub, r1) ← parseReq fuel more
+        pure (.composite ss size after sub, r1)
+      | _ => Option.none
     | "F" :: f :: v :: rest => do
       let f ← f.toNat?
       let v ← v.toInt?
@@ -116,6 +143,8 @@ def showRes : (r : Req) → Res Int r → String
   | .hist _ sub, x => "L[" ++ showBuckets (showRes sub) x ++ "]"
   | .range _ _ sub, x => "L[" ++ showBuckets (showRes sub) x ++ "]"
   | .filter _ _ sub, x => s!"F[{x.1}:" ++ showRes sub x.2 ++ "]"
+  | .composite _ _ _ sub, x => "L[" ++ showBuckets (showRes sub) x ++ "]"
+  | .topHits _ _ _ _, x => "H[" ++ ";".intercalate (x.map fun e => s!"{e.1}:{e.2}") ++ "]"
 
 def merged (r : Req) (parts : List (List Doc)) : Inter Int r :=
   mergeFruits r (parts.map (collectSeg r))
